@@ -25,6 +25,7 @@ type Body struct {
 	pos    int
 	Closed bool
 	EOFs   int
+	OnEOF  func() // called when the end of the body is first reported (net/http fills in trailers then)
 }
 
 func (b *Body) Read(p []byte) (int, error) {
@@ -33,6 +34,9 @@ func (b *Body) Read(p []byte) (int, error) {
 	}
 	if b.pos >= len(b.Data) {
 		b.EOFs++
+		if b.EOFs == 1 && b.OnEOF != nil {
+			b.OnEOF()
+		}
 		return 0, io.EOF
 	}
 	n := len(b.Data) - b.pos
@@ -57,15 +61,18 @@ const (
 
 // Spec describes a message to build.
 type Spec struct {
-	Framing     int
-	Wire        []byte // body bytes as they travel (already content-encoded)
-	Trailers    bool
-	Encoding    string // Content-Encoding header value ("" = none)
-	ContentType string
-	Status      int
-	Location    string
-	Query       string
-	Cookie      string
+	Framing  int
+	Wire     []byte // body bytes as they travel (already content-encoded)
+	Trailers bool
+	// LateTrailers: as for a message parsed from the wire, the declared trailer keys are present
+	// from the start but their values appear only once the body has been read to its end.
+	LateTrailers bool
+	Encoding     string // Content-Encoding header value ("" = none)
+	ContentType  string
+	Status       int
+	Location     string
+	Query        string
+	Cookie       string
 }
 
 func apply(h http.Header, s Spec) (int64, []string, http.Header) {
@@ -101,6 +108,18 @@ func NewRequest(s Spec) (*http.Request, *Body) {
 		req.Header["Cookie"] = []string{s.Cookie}
 	}
 	req.ContentLength, req.TransferEncoding, req.Trailer = apply(req.Header, s)
+	if s.LateTrailers && req.Trailer != nil {
+		full := req.Trailer
+		req.Trailer = http.Header{}
+		for k := range full {
+			req.Trailer[k] = nil
+		}
+		b.OnEOF = func() {
+			for k, v := range full {
+				req.Trailer[k] = v
+			}
+		}
+	}
 	return req, b
 }
 
@@ -116,6 +135,18 @@ func NewResponse(s Spec, req *http.Request) (*http.Response, *Body) {
 		res.Header["Location"] = []string{s.Location}
 	}
 	res.ContentLength, res.TransferEncoding, res.Trailer = apply(res.Header, s)
+	if s.LateTrailers && res.Trailer != nil {
+		full := res.Trailer
+		res.Trailer = http.Header{}
+		for k := range full {
+			res.Trailer[k] = nil
+		}
+		b.OnEOF = func() {
+			for k, v := range full {
+				res.Trailer[k] = v
+			}
+		}
+	}
 	return res, b
 }
 
